@@ -43,3 +43,6 @@ pub assume_specification<T: PartialEq> [<[T]>::contains] (s: &[T], x: &T) -> (r:
 pub assume_specification<T: PartialEq, A: std::alloc::Allocator> [Vec::<T, A>::dedup] (v: &mut Vec<T, A>)
     ensures final(v)@.len() <= old(v)@.len(),
         (T::obeys_eq_spec() && forall|i: int| 0 <= i < old(v)@.len() - 1 ==> !(#[trigger] old(v)@[i]).eq_spec(&old(v)@[i + 1])) ==> final(v)@ == old(v)@;
+// assumed-dep (std): Vec<T> as a slice keeps the elements
+pub assume_specification<T, A: std::alloc::Allocator> [<std::vec::Vec<T, A> as std::convert::AsRef<[T]>>::as_ref] (v: &std::vec::Vec<T, A>) -> (r: &[T])
+    ensures r@ == v@;
